@@ -72,6 +72,8 @@ REQUIRE = {"requests_arrived": 800, "arrival_order_checks": 800, "rx_events_chec
            "rounds_with_response_pending_and_more_requests_queued": 200, "healthy_progress_checks": 100,
            "wire_payload_checks": 500, "wire_payload_checks_after_earlier_data_or_fargs": 100, "entry_request_echo_checks": 400,
            "downgrade_refused_location_not_spelt_http": 8,
+           "followup_request_targets_compared_with_location": 300, "followup_targets_with_escaped_reserved_characters": 60,
+           "entries_compared_with_server_response_at_end_of_run": 500, "entries_rechecked_after_a_later_response": 200,
            "cases_with_caller_owned_queues": 100, "caller_owned_queue_entries_checked": 200,
            "early_answered_uploads_with_body_still_outstanding": 4, "upload_body_bytes_checked_after_early_response": 4000000, "upload_cases_all_requests_answered": 4,
            "reconnect_progress_checks": 8, "requests_queued_late_while_cut-off-before-retry-timer-expired": 5,
@@ -235,6 +237,22 @@ def cases(tier, seed, shard, nshards):
                 r["hops"] = r["hops"][:pre] + [dict(r["hops"][-1], status=307, target="downgrade", locform=form)]
                 after = fixed_req(f"D{i}q1", "immediate", "none")
                 yield {"kind": "downgrade", "tls": True, "reconnectable": False, "reqs": [r, after]}
+            i += 1
+    # fixed schedule: Locations whose query / path carry percent-encoded reserved characters (callback urls, base64 tokens)
+    curated = [{"locq": [["token", "ab+cd=="], ["next", "/home?a=1&b=2"]]},
+               {"locq": [["next", "https://ex.test/p?x=1&y=%2F#top"], ["sig", "dGVzdA=="]], "locenc": "plus"},
+               {"locq": [["q", "100%"], ["k=1", "x;y"], ["a&b", "50%25"]]},
+               {"locq": [["re turn", "a b"], ["q", "frag#ment"], ["sig", "what?now"]], "locenc": "plus"},
+               {"locq": [["token", "+"], ["q", "&"], ["sig", "="]]},
+               {"locextra": "seg/ment"}, {"locextra": "100%"}, {"locextra": "per%25cent", "locq": [["q", "a&b=c"]]},
+               {"locextra": "what?now"}, {"locextra": "frag#part", "locq": [["token", "ab+cd=="]]}]
+    for target in ("relative", "same", "other"):
+        for deco in curated:
+            if i % nshards == shard:
+                r = fixed_req(f"L{i}q0", "immediate", "same")
+                r["hops"][0].update(target=target, status=302, **deco)
+                yield {"kind": "locesc", "tls": False, "reconnectable": False,
+                       "reqs": [r, fixed_req(f"L{i}q1", "immediate", "none")]}
             i += 1
     # fixed schedule: an upload larger than the socket buffers is answered 3xx as soon as its head is read; the server
     # keeps reading the announced body (after dawdling `pause` rounds); follow-up and two more queued requests
@@ -625,7 +643,9 @@ class RawServer:
             if prev.get("locq") or prev.get("locextra"):
                 w.ctx.count("followup_targets_with_escaped_reserved_characters")
             if got_path != want_path:
-                w.viol("redirect-followed-to-other-resource:path-differs",
+                extra = prev.get("locextra") or ""
+                why = "encoded-delimiter-in-path" if ("?" in extra or "#" in extra) else "path-differs"
+                w.viol("redirect-followed-to-other-resource:" + why,
                        f"Location {w.issued[(rid, hop - 1)]!r} names path {want_path!r}; the follow-up request line is {msg.target!r} (path {got_path!r}, qargs {got_q})")
             elif got_q != want_q:
                 w.viol("redirect-followed-to-other-resource:query-arguments-differ",
@@ -852,6 +872,32 @@ def upload_bytes(r, off, n):
     return (unit * reps)[start:start + n]
 
 
+def entry_vs_sent(w, e, rid):
+    """[(field, detail)] where entry e differs from what the scripted server put on the wire for it; None when the
+    entry is not comparable (errored, or its response was not written completely)."""
+    if e.get("errored"):
+        return None
+    rh = e.get("headers") or {}
+    xhop = rh.get("X-Hop") if hasattr(rh, "get") else None
+    if xhop is None or not str(xhop).isdigit():
+        return None
+    key = (rid, int(xhop))
+    if key not in w.sent or key not in w.done:
+        return None
+    sent = w.sent[key]
+    out = []
+    if e.get("status") != sent["status"]:
+        out.append(("status", f"{e.get('status')!r} != {sent['status']!r}"))
+    for n, v in sent["headers"]:
+        if rh.get(n) != v:
+            out.append(("headers", f"{n}: {rh.get(n)!r} != {v!r}"))
+            break
+    body = bytes(e.get("body") or b"")
+    if body != sent["body"]:
+        out.append(("body", f"{len(body)} bytes {body[:40]!r} != {len(sent['body'])} bytes {sent['body'][:40]!r}"))
+    return out
+
+
 def bkind_of(r):
     return r.get("bkind") or ("body" if r.get("body") else "none")
 
@@ -964,6 +1010,7 @@ def _drive(case, ctx, w, servers, client, tymist):
     budget = rounds_budget(case)
     seen_socks = set()
     seen_entries = []          # identities of the entries of rs seen so far
+    first_ok = []              # per entry: equal to the server's response when it was first seen
     refused = 0
     escaped = None
     done_rounds = 0
@@ -1013,6 +1060,14 @@ def _drive(case, ctx, w, servers, client, tymist):
                     w.viol("response-attributed-to-wrong-request",
                            f"responses[{i}] is the server's answer to {echo!r} but is attached to request {got_id!r}")
                     return False
+            # S8: the entry carries what the server sent for it (checked again at the end of the run)
+            diff = entry_vs_sent(w, e, got_id)
+            first_ok.append(diff == [])
+            if diff is not None:
+                ctx.count("entries_compared_with_server_response_when_first_seen")
+                if diff:
+                    w.viol("entry-differs-from-server-response:" + diff[0][0],
+                           f"responses[{i}] (request {got_id}) when it appeared: {diff[0][1]}")
             req = w.script.get(got_id)
             # S3b: the entry carries ITS request (only for requests that were not redirected: redirect() rebuilds the
             # requester from the Location, that divergence is counted elsewhere and not judged)
@@ -1202,13 +1257,22 @@ def _drive(case, ctx, w, servers, client, tymist):
         ctx.count("upload_cases")
         if nresp == len(reqs) and not w.violated:
             ctx.count("upload_cases_all_requests_answered")
-    # (counted, not judged: entry['body'] is the respondent's own bytearray, emptied in place by the next parseBody)
-    for i, e in enumerate(list(rs)):
-        req = w.script.get(w.entry_ids[i]) if i < len(w.entry_ids) else None
-        if req is not None and not e.get("errored") and e.get("status") == req["hops"][-1]["status"] \
-                and req["method"] != "HEAD" and req["hops"][-1]["body"] and not w.server_closed:
-            same = bytes(e.get("body") or b"") == req["hops"][-1]["body"].encode("latin-1")
-            ctx.count("entry_body_intact_at_end_of_case" if same else "entry_body_emptied_by_a_later_response_observed")
+    # S8 at the end of the run: entries the application has not popped yet must still be what the server sent
+    entries = list(rs)
+    for i, e in enumerate(entries):
+        if i >= len(first_ok) or i >= len(w.entry_ids) or not first_ok[i]:
+            continue
+        diff = entry_vs_sent(w, e, w.entry_ids[i])
+        if diff is None:
+            continue
+        ctx.count("entries_compared_with_server_response_at_end_of_run")
+        if i < len(entries) - 1:
+            ctx.count("entries_rechecked_after_a_later_response")
+        if diff:
+            w.viol("entry-clobbered-by-a-later-response:" + diff[0][0],
+                   f"responses[{i}] (request {w.entry_ids[i]}) equalled the server's response when it appeared; at the end of the run, "
+                   f"{len(entries) - 1 - i} later entr{'y' if len(entries) - 2 == i else 'ies'} on: {diff[0][1]}")
+            break
     if downgrade:
         ctx.count("downgrade_cases")
         ctx.count("downgrade_refusals_by_exception", 1 if refused else 0)
